@@ -154,6 +154,7 @@ class Built:
         self.status: list[str] = []
         self.hc_stack: list[Any] = []
         self.failed_at: Optional[int] = None
+        self.object_route = False
 
 
 def _exc(e: BaseException) -> str:
@@ -165,7 +166,15 @@ def apply_op(b: Built, op: dict) -> str:
     try:
         k = op['op']
         if k == 'lf':
-            b.lfs[op['h']] = b.df.add_logical_file(**(op.get('kw') or {}))
+            kw = dict(op.get('kw') or {})
+            if b.object_route:
+                # the documented alternative: hand over a ready-made FileHeaderItem instead of its three parameters
+                from dliswriter.logical_record.eflr_types.file_header import FileHeaderItem, FileHeaderSet
+                names = {'fh_id': 'header_id', 'fh_sequence_number': 'sequence_number', 'fh_identifier': 'identifier'}
+                hkw = {names[key]: val for key, val in kw.items()}
+                hkw.setdefault('header_id', 'FILE-HEADER')
+                kw = {'file_header': FileHeaderItem(parent=FileHeaderSet(), **hkw)}
+            b.lfs[op['h']] = b.df.add_logical_file(**kw)
         elif k == 'add':
             lf = b.lfs[op['lf']]
             kw = {key: decode_value(val, b.objs) for key, val in (op.get('kw') or {}).items()}
@@ -216,7 +225,16 @@ def build(spec: dict) -> Built:
     from dliswriter import DLISFile
     b = Built()
     try:
-        b.df = DLISFile(**(spec.get('sul') or {}))
+        b.object_route = bool(spec.get('object_route'))
+        sul = dict(spec.get('sul') or {})
+        if b.object_route:
+            from dliswriter.logical_record.misc.storage_unit_label import StorageUnitLabel
+            names = {'set_identifier': 'set_identifier', 'sul_sequence_number': 'sequence_number',
+                     'max_record_length': 'max_record_length'}
+            lkw = {names[key]: val for key, val in sul.items()}
+            lkw.setdefault('set_identifier', 'MAIN-STORAGE-UNIT')
+            sul = {'storage_unit_label': StorageUnitLabel(**lkw)}
+        b.df = DLISFile(**sul)
     except Exception as e:  # noqa
         b.status.append(_exc(e))
         b.failed_at = -1
